@@ -42,8 +42,7 @@ def run(tier, seed):
     # the collectors must not carry anything from one slice to the next: the same scripts, one process, two orders
     key = lambda s: pipeline.jkey(s)
     seq = sorted(scripts, key=key)
-    if tier == "quick":
-        seq = seq[::4]
+    seq = seq[::4] if tier == "quick" else seq[::max(1, len(seq) // 600)]     # one process, two orders: a sample suffices
     for label, order in (("sorted", seq), ("reversed", seq[::-1])):
         tc.run_and_validate(rep, order, "all slices collected one after another in one process (%s order)" % label, procs=1,
                             batch_lines=3000, only_ops=lambda op, clause: op["op"] in ("Collect", "CollectASM", "Tally", "TallyASM"))
